@@ -57,7 +57,13 @@ pub struct Opts {
     /// scale factor for workloads (VERIF_SCALE, default 1.0)
     pub scale: f64,
     pub extra: Vec<String>,
+    /// cross mode: this run executes the workload of check `cross` only to let the universal
+    /// monitors judge property `prop` on it (the workload's own oracle is not reported)
+    pub cross: Option<String>,
 }
+
+/// what the cross-mode runs of this process did (merged into the evidence of the main run)
+static CROSS_RUNS: Mutex<Vec<Value>> = Mutex::new(Vec::new());
 
 pub struct Report {
     pub prop: String,
@@ -68,6 +74,7 @@ pub struct Report {
     pub t0: Instant,
     pub hooks: bool,
     pub build: String,
+    pub cross: Option<String>,
     evaluations: AtomicU64,
     distinct: Mutex<HashSet<u64>>,
     samples: Mutex<Vec<Value>>,
@@ -97,6 +104,7 @@ impl Report {
             t0: Instant::now(),
             hooks: opts.hooks,
             build: opts.build.clone(),
+            cross: opts.cross.clone(),
             evaluations: AtomicU64::new(0),
             distinct: Mutex::new(HashSet::new()),
             samples: Mutex::new(Vec::new()),
@@ -170,6 +178,11 @@ impl Report {
         }
     }
     pub fn violation(&self, mut v: Violation) {
+        if self.cross.is_some() {
+            // cross mode: only the universal monitors of the target property are reported
+            self.count("cross_workload_own_oracle_violations(ignored here)", 1);
+            return;
+        }
         // which case of which parallel loop produced it (generic replay: `--replay` re-runs that case)
         let (phase, index) = crate::pool::current_case();
         if phase != u64::MAX {
@@ -212,12 +225,55 @@ impl Report {
     }
     /// the run is inconclusive (exit 2) unless counter `name` reaches `min`
     pub fn require(&self, name: &str, min: u64) {
+        if self.cross.is_some() {
+            return;
+        }
         self.thresholds.lock().unwrap().push((name.to_string(), min));
     }
 
     /// Write evidence + replay files, print verdict lines, return the process exit code.
     pub fn finish(self) -> i32 {
         let wall = self.t0.elapsed().as_secs_f64();
+        if let Some(m) = &self.cross {
+            let inc = self.inconclusive.lock().unwrap().len();
+            CROSS_RUNS.lock().unwrap().push(json!({
+                "workload_of": m, "scenarios": self.evaluations.load(Ordering::Relaxed),
+                "distinct": self.distinct.lock().unwrap().len(), "inconclusive": inc,
+                "wall_s": (wall * 10.0).round() / 10.0,
+            }));
+            return 0;
+        }
+        // universal monitors (harness/src/universal.rs): findings for this property become
+        // violations; findings for other properties are only counted (their own checks report them)
+        let mut other_props: BTreeMap<String, u64> = BTreeMap::new();
+        for f in crate::universal::take_found() {
+            if f.prop == self.prop {
+                let v = Violation {
+                    signature: f.signature.clone(),
+                    what: f.what.clone(),
+                    replay: json!({"log": f.log, "_case": {"phase": f.phase, "index": f.index}, "monitor": "universal"}),
+                };
+                let mut g = self.violations.lock().unwrap();
+                match g.get_mut(&v.signature) {
+                    Some(e) => e.1 += 1,
+                    None => {
+                        g.insert(v.signature.clone(), (v, 1));
+                    }
+                }
+            } else {
+                *other_props.entry(f.prop.to_string()).or_insert(0) += 1;
+            }
+        }
+        let ucounts = crate::universal::take_counts();
+        let cross_runs: Vec<Value> = std::mem::take(&mut *CROSS_RUNS.lock().unwrap());
+        if !ucounts.is_empty() {
+            self.extra("universal_monitors", json!({
+                "what": "scenario-independent rules evaluated on every connection of every scenario (own workload and cross workloads)",
+                "counters": ucounts,
+                "cross_workloads": cross_runs,
+                "findings_attributed_to_other_properties(info)": other_props,
+            }));
+        }
         let known = KnownFindings::load();
         let violations = self.violations.into_inner().unwrap();
         let mut unlisted = Vec::new();
